@@ -14,7 +14,7 @@ import os, sys, itertools
 import vcommon
 from vcommon import VERIF
 
-PROPS = ["Bee2V/C08/Props.lean", "Bee2V/C08/Props2.lean", "Bee2V/C08/Props3.lean", "Bee2V/C08/Props4.lean", "Bee2V/C08/Props5.lean", "Bee2V/C08/Props6.lean", "Bee2V/C08/Props7.lean"]
+PROPS = ["Bee2V/C08/Props.lean", "Bee2V/C08/Props2.lean", "Bee2V/C08/Props3.lean", "Bee2V/C08/Props4.lean", "Bee2V/C08/Props5.lean", "Bee2V/C08/Props6.lean", "Bee2V/C08/Props7.lean", "Bee2V/C08/Props8.lean", "Bee2V/C08/Props9.lean"]
 PROPS = [p for p in PROPS if os.path.exists(os.path.join(vcommon.LEAN, p))]
 MODS = [p[:-5].replace("/", ".") for p in PROPS]
 SIZE_MAX = 2 ** 64 - 1
@@ -760,6 +760,35 @@ def containers(ctx):
         return
     import C08_containers
     C08_containers.run(ctx)
+
+
+# ------------------------------------------------------------------------------------------ C19 adapter
+def c19_stream():
+    """(harness, driver, fn(ctx, exe, w) -> op lines, uses_bash) for property C19 (all build configurations compute the
+    same function): the corpus, all 1-octet-prefix TL/TLV blocks, 2000 of the 2-octet-prefix blocks and a sample of the
+    structured decoder/encoder ops - at most 20 000 lines, drawn with ctx.rng.  Ops are octet-level and size_t is 64-bit
+    on every configuration built here (the w32 build changes the machine word of the arithmetic layer only), so the
+    64-bit stream is replayed unchanged on the 32-bit-word build."""
+    def fn(ctx, exe, w):
+        saved = ctx.tier
+        ctx.tier = "quick"
+        try:
+            ops = Gen(ctx).all()
+        finally:
+            ctx.tier = saved
+        big = [o for o in ops if o.split(" ")[0] in ("tlblk", "decblk") and len(o.split(" ")[1]) == 4]
+        small = [o for o in ops if not (o.split(" ")[0] in ("tlblk", "decblk") and len(o.split(" ")[1]) == 4)]
+        keep_big = set(ctx.rng.sample(range(len(big)), min(2000, len(big))))
+        budget = 20000 - len(CORPUS) - len(keep_big)
+        keep_small = set(ctx.rng.sample(range(len(small)), min(budget, len(small))))
+        out = list(CORPUS)
+        seen = set(out)
+        for i, o in enumerate(small):
+            if i in keep_small and o not in seen:
+                out.append(o)
+        out += [o for i, o in enumerate(big) if i in keep_big]
+        return out[:20000]
+    return ("harness/c08.c", "drv_c08", fn, False)
 
 
 def replay(ctx, path):
